@@ -137,6 +137,7 @@ func checkTimeString(env *Env, s string, o *Outcome) {
 	}
 	ok, h, m, shift, is24 := oracleTime(s)
 	in := map[string]any{"space": "time", "s": s}
+	gsCheckTimeString(env, s, impl, in, o)
 	if ok != (t != nil) {
 		addF(o, Finding{Kind: "D", What: fmt.Sprintf("time literal %q: specification says valid=%v, implementation says %v", s, ok, t != nil), Impl: impl, Input: in})
 		return
@@ -191,6 +192,11 @@ func checkPair(env *Env, a, b int, o *Outcome) {
 	if impl != model {
 		addF(o, Finding{Kind: "K", What: "K.C16.range: NewRange/Duration/ToString differ from the model", Impl: impl, Model: model, Input: in})
 	}
+	{
+		h1, m1, s1 := gsHMS(a)
+		h2, m2, s2 := gsHMS(b)
+		gsCompare(env, o, "range", impl, in, "gs.range", h1, m1, s1, h2, m2, s2)
+	}
 	// D: valid iff end not before start; lasts end - start minutes
 	offA, offB := a-1440, b-1440
 	if (err == nil) != (offB >= offA) {
@@ -224,6 +230,7 @@ func checkPlus(env *Env, a int, d int, fmt12 bool, o *Outcome) {
 	if impl != model {
 		addF(o, Finding{Kind: "K", What: "K.C16.plus: Time.Plus differs from the model", Impl: impl, Model: model, Input: in})
 	}
+	gsCompare(env, o, "timeplus", impl, in, "gs.timeplus", fmt.Sprint((a%1440)/60), fmt.Sprint(a%60), fmt.Sprint(shift), b01(!fmt12), fmt.Sprint(d))
 	off := a - 1440 + d
 	want := off >= -1440 && off < 2880
 	if impl == "panic" {
@@ -322,6 +329,7 @@ func checkDurString(env *Env, s string, valid bool, mins int, canon string, o *O
 	if impl != model {
 		addF(o, Finding{Kind: "K", What: "K.C16.dur: NewDurationFromString/ToString differ from the model on " + s, Impl: impl, Model: model, Input: in})
 	}
+	gsCheckDurString(env, s, impl, in, o)
 	if !valid {
 		if impl != "err" {
 			addF(o, Finding{Kind: "D", What: fmt.Sprintf("duration literal %q must be rejected (minutes >= 60 with hours)", s), Impl: impl, Input: in})
@@ -349,7 +357,9 @@ func checkOther(env *Env, s string, o *Outcome) {
 	if mt := env.Drv.Ask("time", hx(s)); it != mt {
 		addF(o, Finding{Kind: "K", What: "K.C16.time differs on " + fmt.Sprintf("%q", s), Impl: it, Model: mt, Input: in})
 	}
+	gsCheckTimeString(env, s, it, in, o)
 	id := implDur(s)
+	gsCheckDurString(env, s, id, in, o)
 	if md := env.Drv.Ask("dur", hx(s)); id != md {
 		addF(o, Finding{Kind: "K", What: "K.C16.dur differs on " + fmt.Sprintf("%q", s), Impl: id, Model: md, Input: in})
 	}
@@ -388,6 +398,7 @@ func c16Segments(tier string) []c16Seg {
 		{"pair", pairs},
 		{"plus", plus},
 		{"other", len(otherLiterals)},
+		{"gosrc", map[bool]int{false: 4000, true: 200000}[th]},
 	}
 }
 
@@ -498,6 +509,8 @@ func runC16(env *Env, data map[string]any) *Outcome {
 			}
 		case "other":
 			checkOther(env, otherLiterals[i], o)
+		case "gosrc":
+			gsCheckMisc(env, r, o)
 		}
 		_ = before
 	}
